@@ -73,8 +73,29 @@ def build(rec, is_async):
 EXPECT = {"tick": {"b", "o", "a"}, "tock": {"k"}}
 
 
-def check_history(log, sent, returned_all, errors):
+def check_anonymous(log, sent, returned_all, errors):
+    """Identical events without tokens: count-based exactly-once + non-overlap of b..a groups."""
+    out = [("sender-raised", f"{n}: {e}") for n, e in errors.items()]
+    nsent = sum(len(v) for v in sent.values())
+    seq = [(e["k"], e["cb"]) for e in log if e["k"] in ("cb_begin", "cb_end")]
+    groups, cur = 0, []
+    unit = [("cb_begin", "b"), ("cb_end", "b"), ("cb_begin", "o"), ("cb_end", "o"), ("cb_begin", "a"), ("cb_end", "a")]
+    ticks = [x for x in seq if x[1] in ("b", "o", "a")]
+    for i in range(0, len(ticks), 6):
+        if ticks[i:i + 6] != unit:
+            out.append(("overlap", f"callback sequence of identical events is not a repetition of b,o,a at position {i}: {ticks[i:i + 8]}"))
+            break
+        groups += 1
+    if groups != nsent and not out:
+        out.append(("stranded" if groups < nsent else "not-exactly-once",
+                    f"{nsent} identical events were accepted but {groups} were processed after all senders returned"))
+    return out
+
+
+def check_history(log, sent, returned_all, errors, anonymous=False):
     """-> list of (mechanism, detail). log: recorder log; sent: {sender: [tok...]} in send order."""
+    if anonymous:
+        return check_anonymous(log, sent, returned_all, errors)
     out = []
     ev_of, first, last, count = {}, {}, {}, {}
     for e in log:
@@ -146,13 +167,16 @@ def run_threads_once(cfg, prefix):
                 tok = f"{name}.{i}"
                 sent.setdefault(name, []).append(tok)
                 rec.emit("send_call", tok=tok, event="tick", sender=name)
-                res = sm.send("tick", _tok=tok)
+                if cfg.get("anonymous"):
+                    res = sm.send("tick", 5)      # identical, indistinguishable events
+                else:
+                    res = sm.send("tick", _tok=tok)
                 rec.emit("send_return", tok=tok, val=repr(res))
         return body
 
     bodies = {f"T{i}": sender(f"T{i}") for i in range(cfg["senders"])}
     sched = ST.run_schedule(prefix, bodies)
-    problems = check_history(rec.log, sent, not sched.hung, sched.errors)
+    problems = check_history(rec.log, sent, not sched.hung, sched.errors, cfg.get("anonymous"))
     if sched.hung:
         problems.append(("hung", f"threads {sched.hung} did not finish"))
     return sched, rec, problems, src
@@ -250,7 +274,10 @@ async def _arun(cfg, prefix, rec):
                 tok = f"{name}.{i}"
                 sent.setdefault(name, []).append(tok)
                 rec.emit("send_call", tok=tok, event="tick", sender=name)
-                res = await sm.send("tick", _tok=tok)
+                if cfg.get("anonymous"):
+                    res = await sm.send("tick", 5)
+                else:
+                    res = await sm.send("tick", _tok=tok)
                 rec.emit("send_return", tok=tok, val=repr(res))
         except Exception as err:  # noqa: BLE001
             errors[name] = f"{type(err).__name__}: {err}"
@@ -275,7 +302,7 @@ def run_async_once(cfg, prefix):
     rec.scripts = scripts(cfg)
     rec.send_budget = 99
     gate, sent, errors, stuck, src = asyncio.run(_arun(cfg, prefix, rec))
-    problems = check_history(rec.log, sent, stuck is None, errors)
+    problems = check_history(rec.log, sent, stuck is None, errors, cfg.get("anonymous"))
     if stuck:
         problems.append(("stuck", stuck))
     return gate, rec, problems, src
@@ -327,6 +354,8 @@ def plan(tier, seed):
     if tier == "quick":
         S.append({"kind": "threads", "cfg": {"senders": 2, "sends": 1, "yields": 0}, "bound": 1, "shard": 0, "nshards": 1})
         S.append({"kind": "threads", "cfg": {"senders": 2, "sends": 1, "yields": 1, "nested": True}, "bound": 1, "shard": 0, "nshards": 1})
+        S.append({"kind": "threads", "cfg": {"senders": 2, "sends": 2, "yields": 1, "anonymous": True}, "bound": 1, "shard": 0, "nshards": 1})
+        S.append({"kind": "asyncio", "cfg": {"senders": 3, "sends": 2, "yields": 1, "anonymous": True}, "shard": 0, "nshards": 1})
         for i in range(2):
             S.append({"kind": "threads", "cfg": {"senders": 2, "sends": 2, "yields": 1}, "bound": 1, "shard": i, "nshards": 2})
         for i in range(4):
@@ -356,6 +385,10 @@ def plan(tier, seed):
             S.append({"kind": "threads-random", "cfg": {"senders": 4, "sends": 2 + (i % 2), "yields": 1, "nested": i % 2 == 0}, "n": 2500, "seed": seed * 31 + i})
         for i in range(4):
             S.append({"kind": "asyncio", "cfg": {"senders": 3, "sends": 1, "yields": 2, "nested": True}, "shard": i, "nshards": 4})
+        for i in range(4):
+            S.append({"kind": "threads", "cfg": {"senders": 2, "sends": 2, "yields": 1, "anonymous": True}, "bound": 2, "shard": i, "nshards": 4})
+        for i in range(4):
+            S.append({"kind": "asyncio", "cfg": {"senders": 3, "sends": 2, "yields": 1, "anonymous": True}, "shard": i, "nshards": 4})
         for i in range(8):
             S.append({"kind": "asyncio", "cfg": {"senders": 4, "sends": 2, "yields": 1}, "shard": i, "nshards": 8})
         for i in range(4):
